@@ -35,7 +35,7 @@ PROPS = {
  "C07": {
   "level": "exploration", "design_ref": "DESIGN.md §5 P-C07",
   "technique": "seeded simulation with frame-condition invariant: after every executed command of the script the unmanaged part of the device model (computed by an independent reachability analysis) must be textually identical",
-  "level_text": "Seeded search over device states with unmanaged clutter (interfaces unknown to the target with their ACLs and groups, untagged unused objects, routes of other VRFs, unmodelled lines, aaa-server); invariant checked after each command prefix. ASA and IOS only in this check; PAN-OS/NSX scoping is checked by the C03/C04 nodes when built.",
+  "level_text": "Seeded search over device states with unmanaged clutter (interfaces unknown to the target with their ACLs and groups, untagged unused objects, routes of other VRFs, unmodelled lines, aaa-server); invariant checked after each command prefix. ASA, IOS (plan mode), PAN-OS (everything outside the targeted vsys) and NSX (objects without the Netspoc prefix) in live sessions.",
   "level_note": "Trusts the node model and the oracle's own reachability computation of the out-of-scope set.",
   "rule": "case = cisco pair with clutter knob; non-trivial = accepted, non-empty script; distinct = hash of texts",
   "quick": B(6000, 40), "thorough": B(400000, 900),
@@ -45,7 +45,7 @@ PROPS = {
   "level": "exploration", "design_ref": "DESIGN.md §5 P-C08",
   "technique": "seeded simulation: the device model's executor is the invariant checker — every command of every emitted script must be accepted at the moment it is executed (referents exist, nothing referenced is deleted, no duplicate ACE, line/sequence numbers hit, config mode is right)",
   "level_text": "Seeded search over ASA/IOS pairs biased towards sharing patterns; each script position is an executed step on a device model that enforces the rules the statement names.",
-  "level_note": "Trusts the node's referential rules (own reference table). PAN-OS/NSX covered by their own nodes when built.",
+  "level_note": "Trusts the nodes' referential rules (own reference tables): ASA, IOS, PAN-OS, NSX.",
   "rule": "case = cisco pair; non-trivial = accepted, non-empty script; distinct = hash of texts",
   "quick": B(6000, 40), "thorough": B(400000, 900),
   "real": REAL_PLAN, "stubs": STUB_PLAN, "assumptions": ASSUME_NODE, "min_nontrivial": 50,
@@ -70,7 +70,7 @@ PROPS.update({
  "C06": {
   "level": "exploration", "design_ref": "DESIGN.md §5 P-C06",
   "technique": "deterministic simulation of full approve sessions (real drc.Main / doapprove.Main in a synctest bubble against the device node); configuration product hostname x marker x front end enumerated per sampled input; oracle on the device's command transcript",
-  "level_text": "For every sampled (A,B) with pending changes the product {drc, do-approve} x 4 hostname variants x {marker present, absent, partial, not configured} is run completely; a wrong or unmanaged device must receive no change/guard/save command and the run must fail with a diagnostic; marker not configured must behave like marker present. ASA, IOS and Linux (hostname x /etc/issue marker) in this tree; the PAN-OS axes need its node.",
+  "level_text": "For every sampled (A,B) with pending changes the product {drc, do-approve} x 4 hostname variants x {marker present, absent, partial, not configured} is run completely; a wrong or unmanaged device must receive no change/guard/save command and the run must fail with a diagnostic; marker not configured must behave like marker present. ASA, IOS, Linux (hostname x /etc/issue marker) and PAN-OS (hostname x display-name marker x HA state); NSX has neither marker nor hostname check in the statement.",
   "level_note": "Trusts the node's command classification (by protocol position and effect on the model state).",
   "rule": "case = cisco pair x 32 configurations; evaluations = sessions; non-trivial = reference run has a non-empty script; distinct = hash of texts",
   "quick": B(400, 40), "thorough": B(40000, 900),
@@ -80,7 +80,7 @@ PROPS.update({
   "level": "fault_enumeration", "design_ref": "DESIGN.md §5 P-C09",
   "technique": "deterministic simulation with fault injection: fault-free session fixes the dialogue positions, then every fault kind (stall beyond timeout, close, close after echo, error text, garbage, garbled echo, failed save, auth reject; plus legal warnings/latency) is injected at every position; oracles over device transcript, exit status, status file, history, run log, bounded liveness in simulated time",
   "level_text": "Per sampled scenario all dialogue positions x applicable fault kinds are enumerated (thorough: all; quick: a rotating third); after the fault no change or save command may reach the device, exit != 0, FAILED/DIFF, END: FAILED, tool ends within 5*timeout+10 s simulated; conversely OK only if every command was accepted and the save confirmed. Timeouts of 10-120 s cost microseconds (fake clock).",
-  "level_note": "ASA, IOS and Linux sessions in this tree; HTTP devices when their nodes exist. Error text at setup commands whose reply the tool does not inspect by design is not judged.",
+  "level_note": "ASA, IOS, Linux, PAN-OS and NSX sessions. Error text at setup commands whose reply the tool does not inspect by design is not judged.",
   "rule": "evaluations = faulted sessions; non-trivial = base scenario with >=1 change command; distinct = hash(device, target, front, mode)",
   "quick": B(2000, 50), "thorough": B(100000, 1200),
   "real": REAL_LIVE, "stubs": STUB_LIVE, "assumptions": ASSUME_LIVE, "min_nontrivial": 20,
@@ -89,7 +89,7 @@ PROPS.update({
   "level": "fault_enumeration", "design_ref": "DESIGN.md §5 P-C11",
   "technique": "deterministic simulation with fault injection: compare sessions (drc -C, do-approve compare) under every interlock outcome and every fault kind at every dialogue position; transcript oracle + state hash of running/startup configuration before and after",
   "level_text": "Compare runs with non-empty differences, missing marker, unconfigured marker, wrong hostname, and all C09 fault kinds at all positions: the device must receive no change, guard or save command (only ASA 'terminal width' inside configure terminal) and its running and startup configuration must be byte-identical afterwards.",
-  "level_note": "ASA, IOS and Linux in this tree.",
+  "level_note": "ASA, IOS, Linux, PAN-OS and NSX.",
   "rule": "evaluations = compare sessions; non-trivial = base compare reports differences; distinct = hash(device, target, front, interlock)",
   "quick": B(2000, 40), "thorough": B(100000, 900),
   "real": REAL_LIVE, "stubs": STUB_LIVE, "assumptions": ASSUME_LIVE, "min_nontrivial": 20,
@@ -107,7 +107,7 @@ PROPS.update({
   "level": "fault_enumeration", "design_ref": "DESIGN.md §5 P-C17",
   "technique": "deterministic simulation with fault injection: fresh random secret per run (alphabet needing URL/XML escaping), all fault kinds at all dialogue positions incl. rejected enable; byte scan of every file under basedir, stdout and stderr for the secret in plain, query-escaped, path-escaped and XML-escaped form",
   "level_text": "Every sink is scanned after every run (success and each fault kind x position, login positions always). The node never echoes input given at a password prompt and echoes input typed at a command prompt, like real devices.",
-  "level_note": "ASA, IOS and Linux (login password) in this tree; API key / session token sinks need the HTTP nodes.",
+  "level_note": "ASA, IOS, Linux (login password), PAN-OS (password, API key), NSX (password, xsrf token, session cookie).",
   "rule": "evaluations = sessions; non-trivial = every case (fresh secret); distinct = hash(secret, kind, front)",
   "quick": B(1500, 40), "thorough": B(60000, 900),
   "real": REAL_LIVE, "stubs": STUB_LIVE, "assumptions": ASSUME_LIVE, "min_nontrivial": 20,
@@ -208,6 +208,20 @@ PROPS.update({
   "quick": B(4000, 40), "thorough": B(300000, 900),
   "real": ["pkg/drc, pkg/doapprove, pkg/device, pkg/panos, pkg/httpdevice, net/http client down to the RoundTripper"],
   "stubs": ["TLS/TCP + device: RoundTripper backed by /verif/sim/panosdev (hook H2)"], "assumptions": ["the PAN-OS node represents the XML API semantics (trusted base)"], "min_nontrivial": 50,
+ },
+})
+
+
+PROPS.update({
+ "C04": {
+  "level": "exploration", "design_ref": "DESIGN.md §5 P-C04",
+  "technique": "deterministic simulation of full approve sessions against an executable NSX-T policy-API node (object stores, session/xsrf, paged lists, PUT/PATCH/POST?action/DELETE with referential checks); final-state check of every Netspoc policy as a multiset of rules with groups as address sets and services as definitions, no left-over Netspoc service/group/policy, second real compare empty",
+  "level_text": "Seeded search over pairs of NSX states (rules sharing sequence numbers, renamed / copied / shared groups, membership edits on both sides of the replace heuristic, services changed in place, id clashes, left-over objects, extra/missing policies, external groups, paged lists, backup address).",
+  "level_note": "Trusts the NSX node. Whether the manager refuses to empty an address expression could not be established offline and is tolerated.",
+  "rule": "case = (manager state, target); non-trivial = session with >= 1 change request; distinct = hash of texts",
+  "quick": B(4000, 40), "thorough": B(300000, 900),
+  "real": ["pkg/drc, pkg/doapprove, pkg/device, pkg/nsx, pkg/httpdevice, net/http client incl. cookie jar down to the RoundTripper"],
+  "stubs": ["TLS/TCP + manager: RoundTripper backed by /verif/sim/nsxdev (hook H2)"], "assumptions": ["the NSX node represents the policy API semantics (trusted base)"], "min_nontrivial": 50,
  },
 })
 
